@@ -14,6 +14,7 @@
 """
 import json
 import os
+import zlib
 from vlib import core
 from vlib.core import sh2
 
@@ -152,6 +153,28 @@ def gen_case(rng, idx):
     return "case " + " ".join(map(str, toks)), shape, meta
 
 
+def gen_sweep(ctx, rng):
+    """every iMCU-aligned crop offset of a small 4:2:0 / 4:1:1 image under every operation (tj3Transform,
+    crop to the right/bottom edge or a fixed extent), whole and partial iMCUs"""
+    out = []
+    for name, (mw, mh) in (("420", (3, 2)), ("411", (2, 3))) if not ctx.thorough() else (("420", (5, 4)), ("411", (3, 4)), ("440", (4, 3))):
+        fac = STD[name]
+        iw, ih = 8 * fac[0][0], 8 * fac[0][1]
+        for extra in ((0, 0), (5, 9)):
+            W, H = mw * iw + extra[0], mh * ih + extra[1]
+            for op in range(8):
+                dw, dh, dmw, dmh = (H, W, ih, iw) if op in TRANSPOSING else (W, H, iw, ih)
+                for cx in range(0, dw, dmw):
+                    for cy in range(0, dh, dmh):
+                        trim = 1 if rng.chance(1, 2) else 0
+                        cw = 0 if rng.chance(1, 2) else rng.range(1, dw - cx)
+                        ch = 0 if rng.chance(1, 2) else rng.range(1, dh - cy)
+                        x = [op, 0, trim, 0, 1, cw, 1 if cw else 0, ch, 1 if ch else 0, cx, 1, cy, 1, rng.below(16)]
+                        toks = [W, H, 8, 3, 3] + [v for f in fac for v in f] + [1, 0, 60, rng.next() % (1 << 40), 1, 0, 1] + x
+                        out.append(("case " + " ".join(map(str, toks)), "sweep", {"identity": False}))
+    return out
+
+
 # ---------------------------------------------------------------- parsing
 def parse_case(line):
     t = [int(x) for x in line.split()[1:]]
@@ -257,6 +280,31 @@ def spec_check(src, dst, op, gray_forced):
     return None
 
 
+def dims_check(src, dst, x):
+    """size, component count and sampling factors of an uncropped result"""
+    op, trim, gray = x[0], x[2], x[3]
+    fac = [(c["hs"], c["vs"]) for c in src["comps"]]
+    nc1 = len(fac) == 1 or (gray and src["cs"] == 3 and len(fac) == 3)
+    if nc1:
+        fac = [(1, 1)]
+    tr = op in TRANSPOSING
+    dfac = [(b, a) for a, b in fac] if tr else fac
+    dw, dh = (src["H"], src["W"]) if tr else (src["W"], src["H"])
+    imw, imh = 8 * max(f[0] for f in dfac), 8 * max(f[1] for f in dfac)
+    if trim and op in (1, 4, 5, 6) and dw >= imw:
+        dw -= dw % imw
+    if trim and op in (2, 4, 6, 7) and dh >= imh:
+        dh -= dh % imh
+    if (dst["W"], dst["H"]) != (dw, dh):
+        return "result is %dx%d, expected %dx%d" % (dst["W"], dst["H"], dw, dh)
+    if [(c["hs"], c["vs"]) for c in dst["comps"]] != dfac:
+        return "sampling factors of the result are not those of the source%s" % (" swapped" if tr else "")
+    for c, f in zip(dst["comps"], dfac):
+        if (c["wb"], c["hb"]) != (-(-dw * f[0] // imw), -(-dh * f[1] // imh)):
+            return "component size in blocks inconsistent with the image size"
+    return None
+
+
 def imperfect(W, H, fac, cs, x):
     op, gray = x[0], x[3]
     nc1 = len(fac) == 1 or (gray and cs == 3 and len(fac) == 3)
@@ -273,8 +321,11 @@ def transpose64(q):
 # -------------------------------------------------------------------- run
 def run(ctx):
     rng = ctx.rng
+    ctx.regen(["Xform"])
     ctx.prove()
     drv = ctx.model_driver()
+    ctx.trusted += ["tools/gen_Xform.py (regex translator of the dispatch switches and tables of transupp.c / turbojpeg.[ch])",
+                    "harness/c06.c (#include \"transupp.c\" of the working tree; dumps via jpeg_read_coefficients / direct array access)"]
     flavours = ["simd"] if not ctx.thorough() else ["simd", "asan"]
     exes = {fl: ctx.cc("c06", ["c06.c"], fl, libs=("turbojpeg",)) for fl in flavours}
     cases = []
@@ -290,12 +341,30 @@ def run(ctx):
                 l = l.strip()
                 if l.startswith("case "):
                     cases.append((l.replace("#identity", "").strip(), "corpus", {"identity": l.endswith("#identity")}))
-    for i in range(ctx.n(420, 40000)):
+    cases += gen_sweep(ctx, rng)
+    for i in range(ctx.n(4000, 40000)):
         cases.append(gen_case(rng, i))
     return run_cases(ctx, cases, exes, drv, flavours)
 
 
 def run_cases(ctx, cases, exes, drv, flavours):
+    """in batches, so that the dumps of a thorough run never sit in memory all at once"""
+    tot = {"validated": 0, "disagree": 0}
+    B = 1500
+    for k in range(0, len(cases), B):
+        run_batch(ctx, cases[k:k + B], exes, drv, flavours, tot, k)
+    ctx.cov["traces_validated_against_impl"] = tot["validated"]
+    ctx.cov["model_impl_disagreements"] = tot["disagree"]
+    ctx.cov["rule"] = ("sources: 7 TJSAMP layouts + 12 non-standard factor sets (1..4, fractional ratios, Y not maximal, RGB/CMYK/YCCK, "
+                       "single component 2x2), sizes with whole/partial iMCUs on either edge, 8/12-bit, Huffman/optimised/progressive/arithmetic; "
+                       "stages: tj3Transform (1..4 simultaneous transforms), jtransform_* sequence, same sequence on injected full-range "
+                       "coefficients incl. -32768; options perfect/trim/crop/gray/progressive/arithmetic/optimize/copynone; every aligned crop "
+                       "offset x every operation on small images; a stage is distinct when its implementation result differs")
+    ctx.assume += ["correspondence is differential testing of the hand model against the real code; it supports the tie, not the theorems",
+                   "crop extension (crop larger than the image, JXFORM_NONE only), JCROP_FORCE/REFLECT, wipe and drop are outside the model and not generated"]
+
+
+def run_batch(ctx, cases, exes, drv, flavours, tot, base):
     inp = ("\n".join(c[0] for c in cases) + "\n").encode()
     outs = {}
     for fl, exe in exes.items():
@@ -344,7 +413,7 @@ def run_cases(ctx, cases, exes, drv, flavours):
             for k, key in enumerate(dmap):
                 model[key] = ml[k]
 
-    disagree = 0
+    disagree = tot["disagree"]
     validated = 0
     for i, (line, kind, meta) in enumerate(cases):
         pc, st = parsed[i]
@@ -379,35 +448,35 @@ def run_cases(ctx, cases, exes, drv, flavours):
             if res.startswith("ok"):
                 outs_i = [parse_image(o) for o in res.split(" | ")[1:]]
                 if any(o is None for o in outs_i) or len(outs_i) != len(xfs):
-                    bad.append("destination JPEG could not be read back / warnings: " + res[:80])
+                    bad.append(("readback", "destination JPEG could not be read back / warnings: " + res[:80]))
                     outs_i = []
             elif res.startswith("err Other"):
-                bad.append("unexpected failure: " + res[:120])
+                bad.append(("failure", "unexpected failure: " + res[:120]))
             # perfect flag
             want_np = [x for x in xfs if x[1] and imperfect(src["W"], src["H"], fac, src["cs"], x)]
             if res.startswith("ok") and want_np:
-                bad.append("request flagged perfect succeeded although %s is imperfect for %dx%d" % (OPS[want_np[0][0]], src["W"], src["H"]))
+                bad.append(("perfect", "request flagged perfect succeeded although %s is imperfect for %dx%d" % (OPS[want_np[0][0]], src["W"], src["H"])))
             if res == "err NotPerfect" and not want_np:
-                bad.append("perfect transform rejected as imperfect")
+                bad.append(("perfect", "perfect transform rejected as imperfect"))
             # quantisation tables and block relocation
             for x, o in zip(xfs, outs_i):
                 op = x[0]
                 for ci, dc in enumerate(o["comps"]):
                     sq = src["comps"][ci]["q"]
                     if dc["q"] != (transpose64(sq) if op in TRANSPOSING else sq):
-                        bad.append("quantisation table of component %d is not the source table%s" % (ci, " transposed" if op in TRANSPOSING else ""))
+                        bad.append(("qtable", "quantisation table of component %d is not the source table%s" % (ci, " transposed" if op in TRANSPOSING else "")))
                 if not x[4]:      # no crop: direct geometric spec (trim only removes blocks)
-                    m = spec_check(src, o, op, x[3])
+                    m = dims_check(src, o, x) or spec_check(src, o, op, x[3])
                     if m:
-                        bad.append(m)
+                        bad.append(("blocks", m))
             last_out = outs_i[0] if outs_i else None
             if not res.startswith("ok"):
                 complete = False
             mres = model.get((i, si))
             key = "%s:%s" % (["tj", "jt", "inj"][path], kind)
-            for b in bad:
+            for cls, b in bad:
                 ctx.violation(b, {"case": line, "stage": si, "identity": meta.get("identity", False), "impl": res[:300]},
-                              signature="%s:%s:%s" % (key, OPS[xfs[0][0]], b.split(":")[0][:40].replace(" ", "_")))
+                              signature="%s:%s:%s" % (cls, ["tj", "jt", "inj"][path], OPS[xfs[0][0]]))
             if mres is not None:
                 validated += 1
                 if mres != res and not mres.startswith("err CropExt"):
@@ -417,7 +486,7 @@ def run_cases(ctx, cases, exes, drv, flavours):
                     if not bad:
                         ctx.broken_tie("correspondence:" + key, "model and implementation differ on: %s (stage %d) || model=%s || impl=%s"
                                        % (line[:300], si, mres[:120], res[:120]))
-            ctx.count(key + ":" + (res.split()[1] if res.startswith("err ") and len(res.split()) > 1 else res[:2]), 1, hash(res))
+            ctx.count(key + ":" + (res.split()[1] if res.startswith("err ") and len(res.split()) > 1 else res[:2]), 1, zlib.crc32(res.encode()))
         # composition probe
         if meta.get("identity") and complete and first_src is not None and last_out is not None:
             same = (first_src["W"], first_src["H"], len(first_src["comps"])) == (last_out["W"], last_out["H"], len(last_out["comps"]))
@@ -429,14 +498,7 @@ def run_cases(ctx, cases, exes, drv, flavours):
                 ops = [OPS[s[1][0][0]] for s in pc["stages"]]
                 ctx.violation("composition %s (identity in D4) does not restore the source coefficients" % "∘".join(reversed(ops)),
                               {"case": line, "identity": True}, signature="compose:" + "-".join(ops))
-        if i % 97 == 0:
+        if (base + i) % 977 == 0:
             ctx.sample({"case": line[:300], "impl": impl[:200]})
-    ctx.cov["traces_validated_against_impl"] = validated
-    ctx.cov["model_impl_disagreements"] = disagree
-    ctx.cov["rule"] = ("sources: 7 TJSAMP layouts + 12 non-standard factor sets (1..4, fractional ratios, Y not maximal, RGB/CMYK/YCCK, "
-                       "single component 2x2), sizes with whole/partial iMCUs on either edge, 8/12-bit, Huffman/optimised/progressive/arithmetic; "
-                       "stages: tj3Transform (1..4 simultaneous transforms), jtransform_* sequence, same sequence on injected full-range "
-                       "coefficients incl. -32768; options perfect/trim/crop/gray/progressive/arithmetic/optimize/copynone; "
-                       "a stage is distinct when its implementation result differs")
-    ctx.assume += ["correspondence is differential testing of the hand model against the real code; it supports the tie, not the theorems",
-                   "crop extension (crop larger than the image, JXFORM_NONE only), JCROP_FORCE/REFLECT, wipe and drop are outside the model and not generated"]
+    tot["validated"] += validated
+    tot["disagree"] = disagree
